@@ -13,14 +13,15 @@ import (
 
 // finding ids (see /verif/findings.d/c20.json)
 const (
-	fTextUnescaped  = "C20-text-unescaped"       // literal < and & of text copied raw into the v-html sink
-	fEscapes        = "C20-escapes-unresolved"   // backslash escapes / character references not resolved
-	fHTMLClosure    = "C20-html-block-closure"   // closing line of an HTML block of type 1-5 dropped
-	fHardBreak      = "C20-hard-break-doubled"   // <br></br> parses as two breaks (pinned by the repo's fixtures)
-	fStartZero      = "C20-ol-start-zero"        // "0." list loses start="0"
-	fInlineNewline  = "C20-inline-newline"       // newline inserted after every inline element
-	fPrePadding     = "C20-pre-padding"          // "\n  " and "\n" inserted inside <pre> around <code>
-	fLinkTextTrim   = "C20-inline-content-trim"  // leading/trailing space of link text trimmed
+	fTextUnescaped  = "C20-text-unescaped"      // literal < and & of text copied raw into the v-html sink
+	fEscapes        = "C20-escapes-unresolved"  // backslash escapes / character references not resolved
+	fHTMLClosure    = "C20-html-block-closure"  // closing line of an HTML block of type 1-5 dropped
+	fHardBreak      = "C20-hard-break-doubled"  // <br></br> parses as two breaks (pinned by the repo's fixtures)
+	fStartZero      = "C20-ol-start-zero"       // "0." list loses start="0"
+	fInlineNewline  = "C20-inline-newline"      // newline inserted after every inline element
+	fPrePadding     = "C20-pre-padding"         // "\n  " and "\n" inserted inside <pre> around <code>
+	fLinkTextTrim   = "C20-inline-content-trim" // leading/trailing space of link text trimmed
+	fEmptyDest      = "C20-empty-destination"   // [a]() renders <a> without href
 	maxDocLines     = 40
 	maxInlineDepth  = 3
 	maxBlockDepth   = 3
@@ -51,7 +52,8 @@ func (g *gen) of(label string, l []string) string {
 	return l[rapid.IntRange(0, len(l)-1).Draw(g.t, label)]
 }
 func (g *gen) chance(label string, pct int) bool {
-	return rapid.IntRange(0, 99).Draw(g.t, label) < pct
+	// drawn so that shrinking (towards 0) switches the option off
+	return rapid.IntRange(0, 99).Draw(g.t, label) >= 100-pct
 }
 
 // weighted choice: returns index
@@ -75,14 +77,14 @@ var (
 	punctAfter = []string{".", ",", "!", "?", ":", ";", "'", "\"", ")", ">", "-", "=", "+", "#", "$", "%", "/", "^", "~", "}", "]"}
 	strayDelim = []string{"*", "_", "`", "[", "]", "(", "!", "|", "~", "**", "#", "-", "+", ">", "=", "\"", "'", "{", "}", ":"}
 	// literal < and & that are text, not markup
-	literals = []string{"<", "&", "a<b", "x & y", "<3", "1 < 2 > 0", "&c", "&copy", "&#35", "R&D", "a<b>c", "< b >", "&&", "<<", "&;", "&x y;", "if (a<b && c>d)", "<b", "</ x>", "<1>", "&#;", "&#xZ;"}
+	literals = []string{"<", "&", "a<b", "x & y", "<3", "1 < 2 > 0", "&c", "&copy", "&#35", "R&D", "a<q>c", "< b >", "&&", "<<", "&;", "&x y;", "if (a<b && c>d)", "<b", "</ x>", "<1>", "&#;", "&#xZ;"}
 	entities = []string{"&amp;", "&lt;", "&gt;", "&quot;", "&copy;", "&#35;", "&#x41;", "&#X3c;", "&nbsp;", "&ouml;", "&Dcaron;", "&frac34;", "&HilbertSpace;", "&ClockwiseContourIntegral;", "&#0;", "&#1234;", "&#x1F600;", "&ngE;", "&apos;"}
 	// not entities by CommonMark, and the HTML parser agrees (unknown name with semicolon)
 	nonEntities = []string{"&nosuchname;", "&x;"}
 	escapes     = []string{"\\*", "\\_", "\\\\", "\\#", "\\[", "\\]", "\\<", "\\&", "\\`", "\\!", "\\.", "\\|", "\\~", "\\{\\{", "\\>", "\\-", "\\+", "\\(", "\\)", "\\\"", "\\'", "\\&amp;", "\\<br>"}
 	// a backslash that is not an escape stays a backslash on both sides
 	nonEscapes = []string{"\\a", "\\1", "\\é", "a\\b"}
-	mustaches  = []string{"{{ content }}", "{{ x }}", "{{x}}", "{{ 1 + 1 }}", "{{ level }}", "{{ href }}", "{{ code }}", "{{", "}}", "{{ content | upper }}", "{ { x } }", "{{ title }}", "{{ label }}", "{{{ x }}}", "{{ items[0].a }}", "{{ '<b>' }}"}
+	mustaches  = []string{"{{ content }}", "{{ x }}", "{{x}}", "{{ 1 + 1 }}", "{{ level }}", "{{ href }}", "{{ code }}", "{{", "}}", "{{ content | upper }}", "{ { x } }", "{{ title }}", "{{ label }}", "{{{ x }}}", "{{ items[0].a }}", "{{ '<q>' }}"}
 	codeAtoms  = []string{"x", "a  b", "<b>", "&amp;", "&", "{{ x }}", "{{ content }}", "*a*", "\\*", "\\", "[l](u)", "a|b", "<!-- c -->", "'q'", "\"", "fn(a, b)", "é", "$1", "#", "-", "1.", ">", "</code>", "</pre>", "{{ code }}", "~~~", "}}"}
 	dests      = []string{"/p", "http://x.y/a?b=1&c=2", "<a b>", "/u(v)", "#frag", "/ä", "/a%20b", "/q?x={{x}}", "", "<>", "/a_b*c", "mailto:a@b.c", "//h/p", "/a\"b", "/a'b", "/%zz", "/a+b", "/#{{ href }}", "javascript:alert(1)", "/a~b|c"}
 	destsEsc   = []string{"/a&amp;b", "/a\\*b", "/a\\)b", "/&copy;", "/a\\\\b", "<a\\>b>"}
@@ -156,7 +158,11 @@ func (g *gen) linkDest() string {
 	if g.chance("destEsc", 15) && g.allow(fEscapes) {
 		return g.of("destE", destsEsc)
 	}
-	return g.of("dest", dests)
+	d := g.of("dest", dests)
+	if (d == "" || d == "<>") && !g.allow(fEmptyDest) {
+		return "/p"
+	}
+	return d
 }
 
 func (g *gen) linkTitle() string {
@@ -693,7 +699,8 @@ func (g *gen) table() []string {
 		if g.chance("emptyCell", 10) {
 			return ""
 		}
-		s := g.inline(2, true)
+		// a stray | would split the cell, possibly in the middle of a raw HTML element
+		s := strings.ReplaceAll(g.inline(2, true), "|", "/")
 		if g.chance("cellPipe", 8) && g.allow(fEscapes) {
 			s += " \\| " + g.word()
 		}
